@@ -286,7 +286,9 @@ def ruleUnits (isU : OpK → α → Bool) : Ex α → Option (Ex α)
     else none
   | _ => none
 
-/-- cnf.py:495-504 fuse a nested Contraction without distributing. -/
+/-- cnf.py:495-511 fuse a nested Contraction without distributing.  (Since 34c1080 the code skips the
+    fusion when the resulting pair of operators is not distributive; within this fragment — ⊕, ⊗ of one
+    semiring — every resulting pair is `(⊕,⊗)`, `(⊕,⊕)` or has a `null`, so the guard never applies.) -/
 def fuseAt (red bin : OpK) (vars : List Name) (pre : List (Ex α)) (v : Ex α) (post : List (Ex α)) :
     Option (Ex α) :=
   match v with
@@ -391,7 +393,9 @@ def isFlatOperand (isU : α → Bool) : Ex α → Bool
   | _ => false
 
 def isFlat (isU : OpK → α → Bool) : Ex α → Bool
-  | .contr red bin vars ts => wfContr red bin vars ts && red != bin && ts.all (isFlatOperand (isU bin))
+  | .contr red bin vars ts =>
+    wfContr red bin vars ts && red != bin && (red == .null || !vars.isEmpty) && (bin == .null || ts.length > 1)
+      && ts.all (isFlatOperand (isU bin))
   | .leaf _ _ => true
   | .num _ => true
   | _ => false
